@@ -49,12 +49,19 @@ Definition mem (x : N) (l : list N) : bool := existsb (N.eqb x) l.
 Definition waiting (tr : trace) (n : bname) : list call :=
   filter (fun c => bname_eqb c.(c_dest) n && negb (mem c.(c_id) (fated tr))) (calls tr).
 
-(* connection c has said Hello and has not disconnected *)
+(* connection c has said Hello (connections are numbered in the order of their Hello) and has not disconnected since *)
 Definition is_connect (e : event) : bool := match e with EConnect => true | _ => false end.
 Definition is_disconnect (c : N) (e : event) : bool := match e with EDisconnect c' => c' =? c | _ => false end.
-Definition n_connects (tr : trace) : N := nlen (filter (fun s => is_connect (fst s)) tr).
-Definition live (tr : trace) (c : N) : bool :=
-  (c <? n_connects tr) && negb (existsb (fun s => is_disconnect c (fst s)) tr).
+Definition n_conn (h : list event) : N := nlen (filter is_connect h).
+Fixpoint live_from (next : N) (h : list event) (c : N) : bool :=
+  match h with
+  | [] => false
+  | e :: r => if is_connect e
+              then (if next =? c then negb (existsb (is_disconnect c) r) else live_from (next + 1) r c)
+              else live_from next r c
+  end.
+Definition live (tr : trace) (c : N) : bool := live_from 0 (map fst tr) c.
+Definition n_connects (tr : trace) : N := n_conn (map fst tr).
 
 (* the model run from [st], logging the trace *)
 Fixpoint run_trace (cf : cfg) (st : state) (tr : trace) (h : list event) : state * trace :=
@@ -72,18 +79,3 @@ Definition spawn_of (n : bname) (o : out) : bool := match o with OSpawn _ m _ =>
 
 (* a service table that names well-known names only (what the specification has in mind) *)
 Definition wk_services (cf : cfg) : Prop := forall s, In s cf.(services) -> exists k, s.(sv_name) = Wk k.
-
-(* ---------------------------------------------------------------- executable checker for an observed trace
-   (used on the daemon's behaviour by tools/props/c19.py through ml/activation/driver.ml):
-   verdict 0 = fine; 1 = a call met two fates; 2 = a fate for a call that never arrived *)
-Fixpoint first_dup (l : list N) : option N :=
-  match l with
-  | [] => None
-  | x :: r => if mem x r then Some x else first_dup r
-  end.
-
-Definition oracle (tr : trace) : N :=
-  match first_dup (fated tr) with
-  | Some _ => 1
-  | None => if forallb (fun i => i <? n_calls tr) (fated tr) then 0 else 2
-  end.
